@@ -22,6 +22,7 @@ EXPLANATION += " R12.2 reads the retry loop of register_execution_finish through
 EXPLANATION += ' (R12.8) the StreamExecutorStats accessors the close callback reads (status, start time, finish time) answer the atomic load of / a reference to their own field, unchanged; (R12.9) report_scheduled_to_finish (a plain store) is issued before the stream is asked to end, never after -- it would overwrite an ended state.'
 EXPLANATION += ' R12.4 also requires the transition arm to be selected by the sequential_transition argument itself (no extra conjunct such as concurrency_limit == 1).'
 EXPLANATION += " (R12.10) in every spawn_*_from_stream call of the spawn_*_oldies_executor family (the calls inside the oldies' close callback included, captures resolved to what they were filled with) the stream id and the stream come from the same component of create_streams_for_old_and_new_events()."
+EXPLANATION += " R12.6 also imports C11's R11.2 (the error callback of a failed item is awaited: the last item is fully processed before the close callback)."
 ASSUMPTIONS = ["wall-clock ordering of callbacks relative to item side effects beyond dominance is not decided",
                "tokio::spawn runs the coroutine to completion; FnOnce close callbacks are at-most-once by type"]
 
